@@ -64,6 +64,7 @@ type Check struct {
 	start       time.Time
 	cur         string // current configuration
 	fatal       []string
+	requires    [][3]any
 }
 
 func NewCheck(prop, tier string) *Check {
@@ -114,6 +115,11 @@ func (c *Check) Fatal(format string, a ...any) {
 func (c *Check) Note(format string, a ...any) { c.Notes = append(c.Notes, fmt.Sprintf(format, a...)) }
 func (c *Check) Count(what string, n int)     { c.Analysed[what] += n }
 func (c *Check) Floor(rule string, n int)     { c.Floors[rule] = n }
+
+// Require: at least n obligations of rule with this construct must exist (named anchors).
+func (c *Check) Require(rule, construct string, n int) {
+	c.requires = append(c.requires, [3]any{rule, construct, n})
+}
 
 // ---- known findings ------------------------------------------------------------------------
 
@@ -179,6 +185,19 @@ func (c *Check) Finish(root string, seed int) int {
 		if total < min {
 			c.cur = "*"
 			c.add(r, "-", "floor", Undecided, fmt.Sprintf("rule matched %d instance(s), below the floor of %d confirmed by hand: the rule no longer finds its anchors", total, min), "")
+		}
+	}
+	for _, rq := range c.requires {
+		rule, construct, min := rq[0].(string), rq[1].(string), rq[2].(int)
+		n := 0
+		for _, o := range c.Obls {
+			if o.Rule == rule && o.Construct == construct {
+				n++
+			}
+		}
+		if n < min {
+			c.cur = "*"
+			c.add(rule, "-", "anchor:"+construct, Undecided, fmt.Sprintf("%d obligation(s) for anchor %q, expected at least %d: the rule no longer finds its anchors", n, construct, min), "")
 		}
 	}
 	for _, f := range c.fatal {
